@@ -108,12 +108,30 @@ class Repo:
             self.mods[name] = Mod(
                 name, p, rel, src, tree, hashlib.sha256(src.encode()).hexdigest()[:16]
             )
+        self._register_namedtuples()
         self._classes: dict[str, list[Cls]] | None = None
         self._norm_cache: dict[tuple[str, str], ast.FunctionDef] = {}
         self._inliners: dict[str, object] = {}
         self.normalize = not os.environ.get("PYOAK_VERIF_NO_NORMALIZE")
         self.new_helpers_inlined: set[str] = set()
         self.new_helpers_failed: set[str] = set()
+
+    def _register_namedtuples(self) -> None:
+        from . import normalize as N
+        table: dict[str, list] = {}
+        clash: set[str] = set()
+        for m in self.mods.values():
+            for st in ast.walk(m.tree):
+                if isinstance(st, ast.ClassDef) and any(_dotted(b_) in ("NamedTuple", "typing.NamedTuple", "t.NamedTuple") for b_ in st.bases):
+                    fields = [(x.target.id, x.value) for x in st.body if isinstance(x, ast.AnnAssign) and isinstance(x.target, ast.Name)]
+                    if any(d is not None and not isinstance(d, ast.Constant) for _, d in fields):
+                        continue
+                    sig = [(f_, ast.dump(d) if d is not None else None) for f_, d in fields]
+                    if st.name in table and [(f_, ast.dump(d) if d is not None else None) for f_, d in table[st.name]] != sig:
+                        clash.add(st.name)
+                    table[st.name] = fields
+        N.NAMEDTUPLE_FIELDS.clear()
+        N.NAMEDTUPLE_FIELDS.update({k: v for k, v in table.items() if k not in clash})
 
     def _normalised(self, m: Mod, qualname: str, node, cls):
         if not self.normalize:
